@@ -91,6 +91,12 @@ impl Handler {
 	/// its handle and [`Id`] in this `Action` (and thus in the Watchexec instance, when the action
 	/// handler returns).
 	pub fn get_or_create_job(&mut self, id: Id, command: impl Fn() -> Arc<Command>) -> Job {
+		// a job created under this Id earlier in this same action is not in `extant` yet: creating
+		// another one would replace it in `new` and leak it (it would never be stopped on quit)
+		if let Some((job, _)) = self.new.get(&id) {
+			return job.clone();
+		}
+
 		self.get_job(id)
 			.unwrap_or_else(|| self.create_job_with_id(id, command()))
 	}
